@@ -269,7 +269,15 @@ def gen_case(run_seed: int, tier: str, index: int | None = None) -> dict[str, An
     names = list(DOC_NAMES)
     w.shuffle(names)
     names = sorted(names[: w.randint(2, 5)])
-    tree = {n: {"f": b2j(gen_doc_bytes(w))} for n in names}
+    tree: dict[str, Any] = {n: {"f": b2j(gen_doc_bytes(w))} for n in names}
+    for n in names:
+        # some documents start out as fixed points of the first invocation's formatting (the
+        # "nothing to change" path of an implementation), with LF or CRLF line endings
+        r = w.random()
+        if r < 0.12:
+            tree[n]["pre"] = "lf"
+        elif r < 0.24:
+            tree[n]["pre"] = "crlf"
     if w.random() < 0.4:
         tree["keep.txt"] = {"f": b2j(b"not markdown\n")}
     k = sub_rng(run_seed, "knobs")
@@ -630,8 +638,20 @@ def _run_case(case: dict[str, Any], scratch: str, want_trace: bool) -> dict[str,
     root = os.path.join(scratch, "t")
     os.makedirs(root)
     M: dict[str, bytes] = {rel: (j2b(ent["f"]) or b"") for rel, ent in case["tree"].items()}
-    simproc.build_tree(root, {rel: {"f": b} for rel, b in M.items()})
     model = Model()
+    if case["history"]:
+        inv0 = case["history"][0]
+        o0 = eff_opts(inv0, "--auto" in (inv0.get("argv") or []))
+        for rel, ent in case["tree"].items():
+            if ent.get("pre"):
+                try:
+                    fixed = model.fmt_file(M[rel], o0)
+                    fixed = model.fmt_file(fixed, o0)  # (formatting is not always idempotent; two passes get closer)
+                except Exception:  # noqa: BLE001
+                    continue
+                M[rel] = fixed.replace(b"\n", b"\r\n") if ent["pre"] == "crlf" else fixed
+    simproc.build_tree(root, {rel: {"f": b} for rel, b in M.items()})
+    M0 = dict(M)
     violations: list[dict[str, Any]] = []
     counters: dict[str, Any] = {"histories": 1, "invocations": 0, "forms": {}, "legal_fires": {}, "usage_errors_checked": 0, "twin_runs": 0, "discriminating_invocations": 0, "listing_permuted": 0, "fs_ops": 0}
     points: set[str] = set()
@@ -743,7 +763,7 @@ def _run_case(case: dict[str, Any], scratch: str, want_trace: bool) -> dict[str,
     # ---- validation of the in-process stand-in against the real CLI in real subprocesses
     sample_mod = 6 if case.get("tier") == "thorough" else 40
     if not violations and case["run_seed"] % sample_mod == 0 and all("argv" in inv for inv in case["history"]):
-        bad = _real_cli_history(case, scratch, inproc)
+        bad = _real_cli_history(case, scratch, inproc, M0)
         counters["real_subprocess_invocations"] = len(case["history"])
         if bad:
             return {"verdict": "harness_error", "trace": "in-process main(argv) and the real CLI subprocess disagree: " + repr(bad), "digest": "", "counters": counters}
@@ -770,7 +790,7 @@ def _run_case(case: dict[str, Any], scratch: str, want_trace: bool) -> dict[str,
 SET_KEYS = ("points", "chunk_classes", "forms", "nontrivial_points", "space_points")
 
 
-def _real_cli_history(case: dict[str, Any], scratch: str, inproc: list[tuple[Any, bytes, dict[str, bytes]]]) -> dict[str, Any] | None:
+def _real_cli_history(case: dict[str, Any], scratch: str, inproc: list[tuple[Any, bytes, dict[str, bytes]]], M0: dict[str, bytes]) -> dict[str, Any] | None:
     import subprocess
     import sys
 
@@ -778,7 +798,7 @@ def _real_cli_history(case: dict[str, Any], scratch: str, inproc: list[tuple[Any
 
     real = os.path.join(scratch, "real")
     os.makedirs(real)
-    simproc.build_tree(real, {rel: {"f": (j2b(ent["f"]) or b"")} for rel, ent in case["tree"].items()})
+    simproc.build_tree(real, {rel: {"f": b} for rel, b in M0.items()})
     env = dict(os.environ, PYTHONPATH=repo_src(), PYTHONUTF8="1", PYTHONDONTWRITEBYTECODE="1")
     rng = random.Random(case["run_seed"])
     for idx, inv in enumerate(case["history"]):
